@@ -64,14 +64,14 @@ variable {P : Params}
 
 theorem minWire_pos (h : P.valid = true) (t : Ty) : 0 < P.minWireOf t.wire := by
   simp only [Params.valid, Bool.and_eq_true] at h
-  have hm := h.1.1.1.1.1.1.2
+  have hm := h.1.1.1.1.1.1.1.2
   simp only [Params.validMinWire, List.all_eq_true, Bool.and_eq_true, decide_eq_true_eq] at hm
   exact (hm _ (Ty.wire_mem t)).1
 
 theorem minWire_fixed (h : P.valid = true) (t : Ty) (hf : specFixed t.tt > 0) :
     P.minWireOf t.wire = specFixed t.tt := by
   simp only [Params.valid, Bool.and_eq_true] at h
-  have hm := h.1.1.1.1.1.2
+  have hm := h.1.1.1.1.1.1.2
   simp only [Params.validMinWireFixed, List.all_eq_true, Bool.or_eq_true, beq_iff_eq] at hm
   rcases hm t.tt (TT.mem_all _) with h0 | h1
   · omega
@@ -79,7 +79,7 @@ theorem minWire_fixed (h : P.valid = true) (t : Ty) (hf : specFixed t.tt > 0) :
 
 theorem skipRecovers_true (h : P.valid = true) : P.skipRecovers = true := by
   simp only [Params.valid, Bool.and_eq_true] at h
-  have hm := h.1.1.1.1.2
+  have hm := h.1.1.1.1.1.2
   simp only [Params.validSkip, Bool.and_eq_true] at hm
   exact hm.1.1
 
@@ -177,9 +177,10 @@ theorem decodeField_safe (hP : P.valid = true) (S : Schema) (total : Nat)
     (f : Field) (b : Bytes) (slot : Val) : (decodeField P S total dt f b slot).safe := by
   unfold decodeField
   split
-  · have := decodeStr_safe f.ty.isBinary true total b
+  · generalize (f.ty.isBinary || (P.binarySeesThroughPtr && f.ty.deref.isBinary)) = isB
+    have := decodeStr_safe isB true total b
     unfold Outcome.safe at this ⊢
-    cases hd : decodeStr f.ty.isBinary true total b with
+    cases hd : decodeStr isB true total b with
     | ok a => obtain ⟨v, r⟩ := a; simp [Outcome.isPanic]
     | err e => simp [Outcome.isPanic]
     | panic p => rw [hd] at this; simp [Outcome.isPanic] at this
